@@ -1584,3 +1584,135 @@ func ruleR176(c *Ctx) {
 		c.OK(key, fd.Pos(), "the Custom hook of the JSON exporter does not take over a scalar type of the value package")
 	}
 }
+
+// ---------------------------------------------------------------------------
+// R17.7 parallel slices stay parallel
+//
+// Two slices that are filled side by side (keys = append(keys, k); items =
+// append(items, v) in the same block) are parallel: element i of one belongs
+// to element i of the other. Sorting one of them alone breaks the pairing; a
+// later loop over the sorted one that indexes the other with the same index
+// attaches every value to the wrong key. The document is still valid JSON -
+// with the values of a map permuted.
+
+func ruleR177(c *Ctx) {
+	n := 0
+	for _, pkg := range c.RepoPkgs {
+		info := pkg.TypesInfo
+		for _, f := range pkg.Syntax {
+			for _, d := range f.Decls {
+				fd, ok := d.(*ast.FuncDecl)
+				if !ok || fd.Body == nil {
+					continue
+				}
+				// slices sorted on their own
+				sorted := map[types.Object]token.Pos{}
+				ast.Inspect(fd.Body, func(x ast.Node) bool {
+					call, ok := x.(*ast.CallExpr)
+					if !ok || len(call.Args) == 0 {
+						return true
+					}
+					cal := Callee(info, call)
+					if cal == nil || cal.Pkg() == nil {
+						return true
+					}
+					isSort := cal.Pkg().Path() == "sort" && (cal.Name() == "Strings" || cal.Name() == "Ints" || cal.Name() == "Float64s" || cal.Name() == "Slice" || cal.Name() == "SliceStable") ||
+						cal.Pkg().Path() == "slices" && strings.HasPrefix(cal.Name(), "Sort")
+					if !isSort {
+						return true
+					}
+					if id, ok := ast.Unparen(call.Args[0]).(*ast.Ident); ok {
+						if o := info.ObjectOf(id); o != nil {
+							sorted[o] = call.Pos()
+						}
+					}
+					return true
+				})
+				if len(sorted) == 0 {
+					continue
+				}
+				// slices appended in the same block as a sorted one
+				appendTarget := func(s ast.Stmt) types.Object {
+					as, ok := s.(*ast.AssignStmt)
+					if !ok || len(as.Lhs) != 1 || len(as.Rhs) != 1 {
+						return nil
+					}
+					call, ok := ast.Unparen(as.Rhs[0]).(*ast.CallExpr)
+					if !ok || len(call.Args) < 2 {
+						return nil
+					}
+					if id, ok := ast.Unparen(call.Fun).(*ast.Ident); !ok || id.Name != "append" {
+						return nil
+					}
+					l, ok1 := as.Lhs[0].(*ast.Ident)
+					a0, ok2 := ast.Unparen(call.Args[0]).(*ast.Ident)
+					if !ok1 || !ok2 || info.ObjectOf(l) != info.ObjectOf(a0) {
+						return nil
+					}
+					return info.ObjectOf(l)
+				}
+				parallel := map[types.Object]types.Object{} // other slice -> the sorted slice it is parallel to
+				ast.Inspect(fd.Body, func(x ast.Node) bool {
+					blk, ok := x.(*ast.BlockStmt)
+					if !ok {
+						return true
+					}
+					var targets []types.Object
+					for _, st := range blk.List {
+						if t := appendTarget(st); t != nil {
+							targets = append(targets, t)
+						}
+					}
+					for _, a := range targets {
+						if _, isSorted := sorted[a]; !isSorted {
+							continue
+						}
+						for _, b := range targets {
+							if b != a {
+								if _, alsoSorted := sorted[b]; !alsoSorted {
+									parallel[b] = a
+								}
+							}
+						}
+					}
+					return true
+				})
+				for b, a := range parallel {
+					n++
+					key := fmt.Sprintf("%s#parallel-slices:%s/%s", declName(pkg, fd), a.Name(), b.Name())
+					var bad ast.Node
+					ast.Inspect(fd.Body, func(x ast.Node) bool {
+						rs, ok := x.(*ast.RangeStmt)
+						if !ok || bad != nil || rs.Pos() < sorted[a] {
+							return true
+						}
+						xid, ok1 := ast.Unparen(rs.X).(*ast.Ident)
+						kid, ok2 := rs.Key.(*ast.Ident)
+						if !ok1 || !ok2 || info.ObjectOf(xid) != a || kid.Name == "_" {
+							return true
+						}
+						ast.Inspect(rs.Body, func(y ast.Node) bool {
+							ix, ok := y.(*ast.IndexExpr)
+							if !ok {
+								return true
+							}
+							bid, ok1 := ast.Unparen(ix.X).(*ast.Ident)
+							iid, ok2 := ast.Unparen(ix.Index).(*ast.Ident)
+							if ok1 && ok2 && info.ObjectOf(bid) == b && info.ObjectOf(iid) == info.ObjectOf(kid) {
+								bad = ix
+							}
+							return true
+						})
+						return true
+					})
+					if bad != nil {
+						c.Violation(key, bad.Pos(), "%s and %s are filled side by side (element i of one belongs to element i of the other), %s alone is sorted, and afterwards %s is indexed with the index of a loop over the sorted %s: every value is attached to the key that happens to sort into its old position - the exported map has the right keys and the values permuted", a.Name(), b.Name(), a.Name(), b.Name(), a.Name())
+					} else {
+						c.OK(key, fd.Pos(), "%s is sorted on its own, but %s is not indexed in parallel afterwards", a.Name(), b.Name())
+					}
+				}
+			}
+		}
+	}
+	c.Note("parallel-slices", token.NoPos, "%d pairs of slices filled side by side with one of them sorted alone", n)
+}
